@@ -38,6 +38,9 @@ pub enum TCall {
     Repeat { pixel: Vec<u16>, count: u32 },
     /// a pixel source that is NOT fused: yields `words`, then `None`, and would yield `after` if polled again
     PixelsUnfused { n: u8, words: Vec<u16>, after: Vec<u16> },
+    /// a pixel source whose `size_hint` upper bound is `extra` pixels larger than what it yields
+    /// (like `filter` / `take_while` / a clipped fill whose colour stream ends early)
+    PixelsLoose { n: u8, words: Vec<u16>, extra: u32 },
 }
 impl TCall {
     /// the words the device must latch for this call, in order, with the DC level
@@ -48,7 +51,7 @@ impl TCall {
                 v.extend(args.iter().map(|a| (true, *a as u16)));
                 v
             }
-            TCall::Pixels { words, .. } | TCall::PixelsUnfused { words, .. } => words.iter().map(|w| (true, *w)).collect(),
+            TCall::Pixels { words, .. } | TCall::PixelsUnfused { words, .. } | TCall::PixelsLoose { words, .. } => words.iter().map(|w| (true, *w)).collect(),
             TCall::Repeat { pixel, count } => {
                 let mut v = Vec::with_capacity(pixel.len() * *count as usize);
                 for _ in 0..*count {
@@ -61,7 +64,7 @@ impl TCall {
     pub fn n_expected(&self) -> u64 {
         match self {
             TCall::Cmd { args, .. } => 1 + args.len() as u64,
-            TCall::Pixels { words, .. } | TCall::PixelsUnfused { words, .. } => words.len() as u64,
+            TCall::Pixels { words, .. } | TCall::PixelsUnfused { words, .. } | TCall::PixelsLoose { words, .. } => words.len() as u64,
             TCall::Repeat { pixel, count } => pixel.len() as u64 * *count as u64,
         }
     }
@@ -133,6 +136,25 @@ where
                 1 => i.send_pixels::<1>(unfused::<I::Word, 1>(words, after)),
                 2 => i.send_pixels::<2>(unfused::<I::Word, 2>(words, after)),
                 3 => i.send_pixels::<3>(unfused::<I::Word, 3>(words, after)),
+                _ => panic!("unsupported pixel width"),
+            }
+        }
+        TCall::PixelsLoose { n, words, extra } => {
+            // size_hint = (0, Some(k + extra)) but only k pixels come out
+            fn loose<'a, W: Wd, const N: usize>(words: &'a [u16], extra: u32) -> impl Iterator<Item = [W; N]> + 'a {
+                let k = words.len() / N;
+                (0..k + extra as usize).filter(move |i| *i < k).map(move |i| {
+                    let mut a = [W::from16(0); N];
+                    for (j, w) in words[i * N..i * N + N].iter().enumerate() {
+                        a[j] = W::from16(*w);
+                    }
+                    a
+                })
+            }
+            match n {
+                1 => i.send_pixels::<1>(loose::<I::Word, 1>(words, *extra)),
+                2 => i.send_pixels::<2>(loose::<I::Word, 2>(words, *extra)),
+                3 => i.send_pixels::<3>(loose::<I::Word, 3>(words, *extra)),
                 _ => panic!("unsupported pixel width"),
             }
         }
